@@ -45,6 +45,14 @@ fn write_side(ctx: &mut Ctx, env: &Env) {
                             return Err(format!("continuing on a deflateCopy taken after call {k} writes a different stream ({} bytes, {} without the copy, first difference at {:?})", tk.out.len(), t.out.len(), tk.out.iter().zip(&t.out).position(|(a, b)| a != b)));
                         }
                     }
+                    // and with the stream abandoned after the first / second call (possibly inside a field), deflateReset,
+                    // and the same member written again on the recycled stream (the header stays installed)
+                    for k in [1usize, 2] {
+                        c.exec();
+                        let exk = DExtra { gz: Some(&row.gz), reset_after_call: k, ..Default::default() };
+                        let tk = run_deflate::<Rs>(&row.cfg, &body, &row.sched, env, &exk, None)?;
+                        c05::check_stream(c, &row.cfg, &body, &tk.out, None, Some(&row.gz)).map_err(|e| format!("member written after a deflateReset that followed call {k}: {e}"))?;
+                    }
                 }
                 Ok(())
             },
